@@ -89,13 +89,33 @@ func SetRequestOf(ops []refmodel.Op, sync bool, usePrefixTarget bool, opt ...boo
 	if single {
 		req.Prefix = &gnmi.Path{Target: ops[0].Target}
 	}
+	// with the replace option the first third of the value operations goes under "replace" (gNMI processes deletes,
+	// then replaces, then updates - the same relative order as in ops, which is the order the reference model uses)
+	replaceEvery, nReplace := 0, 0
+	if len(opt) > 1 && opt[1] {
+		replaceEvery = 3
+		nVal := 0
+		for _, o := range ops {
+			if !o.Del {
+				nVal++
+			}
+		}
+		nReplace = nVal / 3
+	}
+	i := -1
 	for _, o := range ops {
+		if !o.Del {
+			i++
+		}
 		t := o.Target
 		if single {
 			t = ""
 		}
 		if o.Del {
 			req.Delete = append(req.Delete, o.P.ToGNMI(t))
+		} else if replaceEvery > 0 && i < nReplace {
+			// a leaf named under "replace" is set like one named under "update"
+			req.Replace = append(req.Replace, &gnmi.Update{Path: o.P.ToGNMI(t), Val: o.V.ToGNMI()})
 		} else {
 			req.Update = append(req.Update, &gnmi.Update{Path: o.P.ToGNMI(t), Val: o.V.ToGNMI()})
 		}
@@ -112,7 +132,31 @@ func SetRequestOf(ops []refmodel.Op, sync bool, usePrefixTarget bool, opt ...boo
 		req.Extension = append(req.Extension, &gnmi_ext.Extension{Ext: &gnmi_ext.Extension_RegisteredExt{
 			RegisteredExt: &gnmi_ext.RegisteredExtension{Id: configapi.TransactionStrategyExtensionID, Msg: b}}})
 	}
+	// extensions that do not concern onos-config (or say nothing) may accompany the request, before or after its own
+	if len(opt) > 2 && opt[2] {
+		arb := &gnmi_ext.Extension{Ext: &gnmi_ext.Extension_MasterArbitration{MasterArbitration: &gnmi_ext.MasterArbitration{Role: &gnmi_ext.Role{Id: "client"}, ElectionId: &gnmi_ext.Uint128{Low: 1}}}}
+		unknown := &gnmi_ext.Extension{Ext: &gnmi_ext.Extension_RegisteredExt{RegisteredExt: &gnmi_ext.RegisteredExtension{Id: 999, Msg: []byte{0xff, 0x01}}}}
+		hist := &gnmi_ext.Extension{Ext: &gnmi_ext.Extension_History{History: &gnmi_ext.History{}}}
+		noOverrides := &gnmi_ext.Extension{Ext: &gnmi_ext.Extension_RegisteredExt{RegisteredExt: &gnmi_ext.RegisteredExtension{Id: configapi.TargetVersionOverridesID}}}
+		switch len(ops) % 4 {
+		case 0:
+			req.Extension = append([]*gnmi_ext.Extension{arb}, req.Extension...)
+		case 1:
+			req.Extension = append([]*gnmi_ext.Extension{unknown, noOverrides}, req.Extension...)
+		case 2:
+			req.Extension = append(req.Extension, hist)
+		case 3:
+			req.Extension = append(append([]*gnmi_ext.Extension{hist}, req.Extension...), arb)
+		}
+	}
 	return req
+}
+
+func (e *Exec) caseIndex() int {
+	if e.C == nil {
+		return 0
+	}
+	return e.C.Index
 }
 
 func targetsOf(ops []refmodel.Op) []string {
@@ -133,7 +177,7 @@ func (e *Exec) IssueSet(ops []refmodel.Op, sync bool, opt ...bool) *Call {
 	inc := e.W.Cur()
 	call := &Call{N: len(e.Calls) + 1, Kind: "set", Ops: ops, Sync: sync, Inc: inc.N, done: make(chan struct{})}
 	e.Calls = append(e.Calls, call)
-	req := SetRequestOf(ops, sync, call.N%3 == 0, serializable)
+	req := SetRequestOf(ops, sync, call.N%3 == 0, serializable, call.N%2 == 0, (call.N+e.caseIndex())%5 < 2)
 	ctx, cancel := context.WithCancel(context.Background())
 	e.mu.Lock()
 	e.cancels = append(e.cancels, cancel)
